@@ -44,7 +44,8 @@ def run(args):
     rep.cov["rule"] = ("every repetition (%d per backend; fresh map orders, GOMAXPROCS 1/4/16, seeded yields, different process "
                        "histories) of analyse+compile+run must give the specified result: (1) HmsLink module graphs (OrderIndependent "
                        "proved over all module visiting orders), (2) HmsSem programs with many-field objects, many locals, functions and "
-                       "globals plus the template / lambda / singleton families (one specified behaviour each), (3) the diagnostics "
+                       "globals plus the template / lambda / singleton families (one specified behaviour each), (2c) programs that run into "
+                       "a call / stack / memory limit: output, interrupt and message of every repetition, (3) the diagnostics "
                        "multiset of sources with several errors and warnings; non-trivial = distinct sources" % reps)
     pool = C.Pool(C.build_worker())
     # (2) single-module programs with one specified behaviour
@@ -87,6 +88,49 @@ def run(args):
         if f != o:
             rep.fail({"family": "multi-module", "backend": q["a"]["backend"], "kind": "repetition-differs", "what": "output"},
                      {"modules": q["a"]["modules"], "first": f, "now": o})
+    # (2c) programs that run into a limit: where they are stopped, with which message and after which output is part of
+    # the result (limits are polled at fixed instruction counts, not at moments in time)
+    runaway = [
+        ("recursion", "fn r(n: int) -> int { println(n); 1 + r(n + 1) }\nfn main() { println(r(0)); }\n"),
+        ("recursion_two_modules", None),
+        ("locals", "fn r(n: int) -> int { let a = n; let b = a + 1; let c = [a, b]; println(c); r(b) + a }\nfn main() { println(r(0)); }\n"),
+        ("closure_recursion", "fn main() { let d = 0; let f = fn(n: int) -> int { n }; println(f(1)); r2(0); }\nfn r2(n: int) { println(\"r2\", n); r2(n + 1); }\n"),
+        ("deep_then_throw", "fn r(n: int) -> int { if n > 60 { throw(\"deep\"); } r(n + 1) + 1 }\nfn main() { try { r(0); } catch e { println(e.message); } println(r(0)); }\n"),
+    ]
+    lims = [{"call": 30, "stack": 2000, "mem": 100000}, {"call": 100, "stack": 500, "mem": 400}, {"call": 4000, "stack": 90, "mem": 100000},
+            {"call": 100, "stack": 500, "mem": 100000}]
+    lreqs = []
+    for name, src in runaway:
+        mods = {"main": src} if src else {"main": "import ping from lib;\nfn main() { ping(0); }\npub fn pong(n: int) { println(\"pong\", n); ping(n + 1); }\n",
+                                          "lib": "import pong from main;\npub fn ping(n: int) { println(\"ping\", n); pong(n + 1); }\nfn main() { }\n"}
+        if not src:
+            mods = {"main": "import ping from lib;\nfn main() { ping(0, 0); }\n",
+                    "lib": "pub fn ping(n: int, m: int) { println(\"ping\", n); pong(n + 1, m); }\nfn pong(n: int, m: int) { let k = [n, m]; ping(n + 1, k[0]); }\nfn main() { }\n"}
+        for li, lim in enumerate(lims):
+            for k in range(reps * 3):
+                lreqs.append({"op": "run", "id": len(lreqs), "a": {"modules": mods, "entry": "main", "backend": "vm", "limits": lim, "timeout_ms": 20000}})
+            for k in range(reps):
+                lreqs.append({"op": "run", "id": len(lreqs), "a": {"modules": mods, "entry": "main", "backend": "tree", "tree_limit": lim["call"], "timeout_ms": 20000}})
+    lfirst = {}
+    for q, r in zip(lreqs, pool.map(lreqs, timeout=60)):
+        rep.count()
+        key = (json.dumps(q["a"]["modules"], sort_keys=True), q["a"]["backend"], json.dumps(q["a"].get("limits") or q["a"].get("tree_limit")))
+        rep.nontrivial(key)
+        feat = {"family": "limit-runs", "backend": q["a"]["backend"]}
+        if "r" not in r:
+            rep.fail(dict(feat, kind="hostcrash" if "crash" in r else "hang", panic=sem.panic_class((r.get("crash") or {}).get("stderr", ""))),
+                     {"modules": q["a"]["modules"], "limits": q["a"].get("limits"), "real": str(r)[:1500]})
+            continue
+        oc = r["r"].get("outcome") or {}
+        o = (r["r"]["accepted"], r["r"]["out"], oc.get("kind"), oc.get("fatal"), oc.get("msg"))
+        if oc.get("kind") == "terminated":
+            raise C.Machinery("a limit-run program ran into the wall-clock deadline (which is not deterministic): %s" % json.dumps(q["a"]["modules"])[:200])
+        f = lfirst.setdefault(key, o)
+        if f != o:
+            what = "output" if f[1] != o[1] else "outcome"
+            rep.fail(dict(feat, kind="repetition-differs", what=what),
+                     {"modules": q["a"]["modules"], "limits": q["a"].get("limits"), "first": [str(x)[-300:] for x in f], "now": [str(x)[-300:] for x in o]})
+    rep.notes["limit_runs_outcomes"] = sorted(set("%s/%s" % (v[2], v[3]) for v in lfirst.values()))
     # (3) diagnostics
     srcs = diag_inputs(pool, rnd, 30 if thorough else 6)
     reqs = []
